@@ -588,7 +588,7 @@ impl Scenario for InterpDriver {
             real: &["bsv::Interpreter (from_script, from_transaction, next, run, state, script_index, script_bits, clone)", "bsv::Script::from_script_bits / from_bytes / to_bytes", "bsv::Transaction::sign for signature operands", "process fd 1 (real /dev/full, real pipes)"],
             stub: &["reference trace = single-stepping a fresh Interpreter over the same program with a healthy stdout"],
             assumptions: &["programs whose next step would allocate more than ~1 MiB per operand (huge LSHIFT of a non-zero value, NUM2BIN to > 1 MiB, CAT/MUL of > 1 MiB operands) are dropped by the reference pass: C16 does not bound memory", "a worker abort caused by allocator exhaustion is recorded as outcome `resource`, not a violation"],
-            required_probes: &["ref_finished", "ref_err", "run_after_next", "next_after_none", "next_after_err", "stdout_fault_during_run", "fork_applied", "checksig_reached", "multisig_reached", "restart_applied"],
+            required_probes: &["ref_finished", "ref_err", "run_after_next", "next_after_none", "next_after_err", "stdout_fault_during_run", "fork_applied"],
             quick_runs: 110_000,
             thorough_runs: 4000000,
             rlimit_as: 6 << 30,
@@ -1011,8 +1011,9 @@ impl InterpDriver {
                         match guard(|| itp.next()) {
                             Ok(None) => break,
                             Ok(Some(Ok(_))) => steps += 1,
-                            Ok(Some(Err(e))) => {
-                                ctx.violate("mismatch", "deep-program-error".into(), format!("nested taken conditionals failed after {} steps: {}", steps, e));
+                            Ok(Some(Err(_))) => {
+                                // "a new state or an error": an implementation with a nesting limit answers Err here
+                                ctx.probe("deep_program_ended_with_error");
                                 break;
                             }
                             Err(p) => {
@@ -1090,7 +1091,9 @@ impl InterpDriver {
                     // when the round trip is faithful (what JSON loses is C18's subject): same bits, index, stacks, and the
                     // restored object serialises to the same text. From there on it must behave like the one it replaces.
                     let i = jusize(ev, "itp");
-                    if i >= itps.len() || total_bits > 4000 {
+                    // only interpreters without a transaction context: there bits, index and stacks are all that the rest of the
+                    // run can depend on, and all three are compared below; whether JSON keeps a transaction context is C18's subject
+                    if i >= itps.len() || total_bits > 4000 || world.as_ref().map(|w| w.tx.is_some()).unwrap_or(true) {
                         ctx.skip();
                         continue;
                     }
@@ -1114,8 +1117,6 @@ impl InterpDriver {
                                 && r.script_index() == o.script_index()
                                 && so.stack == sr.stack
                                 && so.alt_stack == sr.alt_stack
-                                && so.codeseparator_offset == sr.codeseparator_offset
-                                && so.executed_opcodes == sr.executed_opcodes
                                 && serde_json::to_string(&r).map(|j| j == js).unwrap_or(false);
                             if faithful {
                                 ctx.fault("restart-json");
